@@ -46,6 +46,7 @@ type Run struct {
 	Viol    *Violation
 	Events  []string // bounded tail of the event log
 	Head    []string // its first lines
+	FullLog []string // whole event log (debugging only; nil = off)
 	nEvents int
 	digest  hash.Hash
 	Stats   map[string]int // fault kinds fired, probes hit
@@ -116,6 +117,9 @@ func (r *Run) Logf(format string, args ...interface{}) {
 	r.mu.Lock()
 	r.nEvents++
 	line := fmt.Sprintf("%d @%s %s", r.Steps, r.SimNow(), s)
+	if r.FullLog != nil {
+		r.FullLog = append(r.FullLog, line)
+	}
 	io.WriteString(r.digest, line)
 	io.WriteString(r.digest, "\n")
 	if len(r.Head) < 150 {
@@ -319,6 +323,7 @@ func Execute(t *testing.T, r *Run, body func(r *Run)) (leaked int, hung bool) {
 			n := simrt.NewNetwork()
 			simrt.Cur = n
 			r.Net = n
+			n.Log = func(format string, args ...interface{}) { r.Logf("net: "+format, args...) }
 			oldSched := kcp.SystemTimedSched
 			kcp.SystemTimedSched = kcp.NewTimedSched(1)
 			defer func() {
